@@ -49,6 +49,18 @@ def idx_deps():
 # ---------------------------------------------------------------------------------------------------------------
 # correspondence: hand models at Float (driver) vs the real code at double (harness), bit patterns as text
 
+def _decode(line):
+    """hex bit patterns of doubles in a protocol line -> decimal (for the replay; the comparison itself is on the bit patterns)"""
+    import struct
+    out = []
+    for w in line.split():
+        if len(w) == 16 and all(c in "0123456789abcdef" for c in w):
+            out.append(struct.unpack(">d", bytes.fromhex(w))[0])
+        else:
+            out.append(w)
+    return out
+
+
 def run_corr(chk, binary, n):
     """returns (ok, per-kind counters, first mismatch per kind, stats, self_fail_lines)"""
     rc, out = lib.sh([binary, str(chk.seed), str(n)], timeout=1800)
@@ -73,7 +85,9 @@ def run_corr(chk, binary, n):
             good[k] += 1
         else:
             bad[k] += 1
-            first.setdefault(k, {"driver_input": ins[i], "model_at_Float": a.strip(), "real_code_at_double": b})
+            first.setdefault(k, {"driver_input": ins[i], "input_numbers_decimal": _decode(ins[i]),
+                                 "model_at_Float": a.strip(), "real_code_at_double": b,
+                                 "model_decimal": _decode(a), "real_code_decimal": _decode(b)})
     return True, {"agree": dict(good), "differ": dict(bad)}, first, stats, selff, ""
 
 
@@ -108,7 +122,8 @@ def correspondence(chk, binary, n):
     chk.count(tot, nontriv)
     chk.extra["correspondence"] = {"cases": tot, "per_kind": counts, "branch_hits": stats}
     for need in ("ear44_true", "ear44_false", "ear44_flipped", "ear33_true", "ear33_false", "ear33_flipped",
-                 "jstep3_changed", "jstep3_unchanged", "jstep4_changed", "jstep4_unchanged", "estep3_changed", "estep3_unchanged", "rs_ok", "rs_throw"):
+                 "jstep3_changed", "jstep3_unchanged", "jstep4_changed", "jstep4_unchanged", "estep3_changed", "estep3_unchanged", "rs_ok", "rs_throw",
+                 "svd_structured3", "svd_structured4", "eig_structured3", "eig_structured4", "svd_structured_rotated"):
         if int(stats.get(need, 0)) == 0:
             chk.oblige("corr:generator-hits:" + need, "correspondence", False, "generator never reached this branch")
             chk.fail("corr:generator", "corr:generator:" + need, "correspondence generator never reached branch " + need, {"stats": stats}, False)
@@ -269,7 +284,10 @@ def run(chk):
                        "computeRSMatrix: tail algebra and degenerate-A arm proved; factor selection checked bitwise on the real code"]
     chk.rule = ("correspondence: affine matrices S*H*R*T with graded conditioning 10^-12..10^12, negative scales/reflections, zero / dependent "
                 "rows (guards), tiny rows (lengthTiny, denormals), integer and non-affine matrices; Jacobi: random / integer / symmetric / "
-                "diagonal / nearly diagonal / trace-free blocks x 4 tolerances; whole solvers incl. rank-deficient and repeated values. "
+                "diagonal / nearly diagonal / trace-free blocks x 4 tolerances; whole solvers incl. rank-deficient and repeated values, plus "
+                "DETERMINISTIC structured sparse matrices in every tier (harness/corr/c12_structured.h: every single off-diagonal position, "
+                "single row / column, identity + last row / column (translations), scale + translation, block-diagonal, triangular, "
+                "permutation x diagonal, symmetric versions for the eigen solver, magnitudes 1 / 1e-3 / 1e3), in both harnesses. "
                 "residue: graded conditioning, repeated, rank-deficient, diagonal, reflection, symmetric, zero, scaled x {3,4} x {float,double} "
                 "x force; point sets general/collinear/coplanar/single/pair/duplicates x weighted x scale x exact/noisy.  non-trivial = "
                 "decompositions that succeed, rotations that change the matrix, whole-solver runs")
